@@ -409,7 +409,18 @@ func (e *Engine) appendOp(st *State, a, b Slice, ci ssa.CallInstruction) Value {
 	return Slice{Obj: id, Off: U64(0), Len: U64(uint64(al + bl)), Cap: U64(uint64(ncap))}
 }
 
+// noteRead: reads matter to the monitor only for objects already handed back to a sync.Pool
+func (e *Engine) noteRead(st *State, obj int, what string) {
+	if st.released[obj] && st.sharedMax != 0 {
+		e.sharedWrite(st, obj, what+" of an object after it was handed back to a sync.Pool")
+	}
+}
+
 func (e *Engine) noteWrite(st *State, obj int, what string) {
+	if st.released[obj] && st.sharedMax != 0 {
+		e.sharedWrite(st, obj, what+" into an object after it was handed back to a sync.Pool")
+		return
+	}
 	if st.sharedMax != 0 && obj != 0 && st.isShared(obj) && st.onceDepth == 0 && st.lockDepth == 0 {
 		e.sharedWrite(st, obj, what)
 	}
@@ -461,6 +472,7 @@ func (e *Engine) copyOp(st *State, dst, src Slice) Value {
 			return BV{n}
 		}
 		srcArr := st.obj(src.Obj).Arr
+		e.noteRead(st, src.Obj, "copy")
 		e.noteWrite(st, dst.Obj, "copy")
 		w := st.wobj(dst.Obj)
 		w.Arr = copyInto(w.Arr, dst.Off, srcArr, src.Off, n)
